@@ -79,15 +79,46 @@ AnnexF == <<
      o |-> <<9, 18, 28, 2, 0, 0, 4, 44, 0, 0, 0, 10, 57, 0, 78, 9, 85, 46, 68, 66, 130, 0, 0, 47, 9, 111, 46, 130, 4, 0, 47, 79>>]
   >>
 
-\* root -> one "cls" state per class -> its cases: the value list of a class is computed once (in the step out of
-\* its "cls" state) and the classes are spread over the TLC workers; the case states carry their value
+\* root -> one "cls" state per class -> one "vals" state holding the value list of the class (computed once, in that
+\* step; the classes are spread over the TLC workers) -> its cases; the case states carry their value
+\* ---- the rules of WellFormed are not vacuous: toy tables that break them, and what that does to decoding -------
+U == TAtomic(2, "Unsigned")
+Rules(s) == {b[3] : b \in BrokenS("toy", s)}
+Toy1 == TSeq(<<El("a", 0, TRUE, U), El("b", 0, FALSE, U)>>)                    \* optional [0] before a required [0]
+Toy2 == TChoice(<<El("x", NoCtx, FALSE, U), El("y", NoCtx, FALSE, U)>>)        \* two untagged Unsigned alternatives
+Toy3 == TSeq(<<El("l", NoCtx, TRUE, TSeqOf(U)), El("z", 1, FALSE, U)>>)        \* optional untagged list: absent = empty
+Toy4 == TSeq(<<El("a", NoCtx, TRUE, U), El("b", NoCtx, FALSE, TAnyAtomic)>>)   \* optional Unsigned before any primitive
+Toy5 == TSeq(<<El("a", 3, FALSE, TAnyAtomic)>>)                                \* context tag hides the primitive type
+Toy6 == TSeq(<<El("n", 0, FALSE, U), El("l", 1, FALSE, TSeqOf(TSeq(<<El("p", NoCtx, FALSE, U), El("q", NoCtx, TRUE, U)>>)))>>)
+Good == TSeq(<<El("a", 0, TRUE, U), El("l", NoCtx, FALSE, TSeqOf(U)), El("c", 1, TRUE, TChoice(<<El("x", 0, FALSE, U), El("y", 1, FALSE, TSeqOf(U))>>))>>)
+ASSUME Rules(Toy1) = {"ctx_unique", "opt_ambiguous"}
+ASSUME Rules(Toy2) = {"alt_ambiguous"}
+ASSUME Rules(Toy3) = {"opt_nullable"}
+ASSUME Rules(Toy4) = {"opt_ambiguous"}
+ASSUME Rules(Toy5) = {"anyatomic_ctx"}
+ASSUME Rules(Toy6) = {"item_ambiguous"}
+ASSUME Rules(Good) = {}
+ASSUME LET v == <<"s", <<Absent, <<"a", <<5>>>>>>>> IN Valid(Toy1, v) /\ ~DecAll(Toy1, Enc(Toy1, v)).ok
+ASSUME LET v == <<"c", 2, <<"a", <<5>>>>>> IN Valid(Toy2, v) /\ DecAll(Toy2, Enc(Toy2, v)) # Ok(v, <<>>)
+ASSUME LET v == <<"s", <<Absent, <<"l", <<>>>>, <<"c", 2, <<"l", <<>>>>>>>>>> IN
+       /\ Enc(Good, v) = <<Tag("open", 1, <<>>), Tag("open", 1, <<>>), Tag("close", 1, <<>>), Tag("close", 1, <<>>)>>
+       /\ DecAll(Good, Enc(Good, v)) = Ok(v, <<>>)
+\* the situations of the known defects, as the clause 20.2 rules see them: an empty untagged list in front of a closing
+\* tag is an empty list; a list alternative of a choice is bracketed by opening / closing tags
+ASSUME LET rec == TChoice(<<El("stream", 0, FALSE, TSeq(<<El("p", NoCtx, FALSE, U)>>)),
+                            El("record", 1, FALSE, TSeq(<<El("n", NoCtx, FALSE, U), El("data", NoCtx, FALSE, TSeqOf(TAtomic(6, "OctetString")))>>))>>)
+           v == <<"c", 2, <<"s", <<(<<"a", <<0>>>>), (<<"l", <<>>>>)>>>>>>
+       IN  /\ Enc(rec, v) = <<Tag("open", 1, <<>>), Tag("app", 2, <<0>>), Tag("close", 1, <<>>)>>
+           /\ DecAll(rec, Enc(rec, v)) = Ok(v, <<>>)
+
 Init == c = <<"root", 0, 0, <<>>>>
 Next == \/ /\ c[1] = "root"
            /\ \/ \E n \in 1..NC : c' = <<"wf", n, 0, <<>>>> \/ c' = <<"cls", n, 0, <<>>>>
               \/ \E i \in 1..Len(AnnexF) : c' = <<"annexf", i, 0, AnnexF[i].v>>
         \/ /\ c[1] = "cls"
-           /\ LET L == Vals(Ref(ClassNames[c[2]]), Depth) IN
-              \E j \in Idx(Len(L)) : c' = <<"grid", c[2], j, L[j]>>
+           /\ c' = <<"vals", c[2], 0, Vals(Ref(ClassNames[c[2]]), Depth)>>
+        \/ /\ c[1] = "vals"
+           /\ \E j \in Idx(Len(c[4])) : c' = <<"grid", c[2], j, c[4][j]>>
 Spec == Init /\ [][Next]_c
 
 IsCase == c[1] \in {"grid", "annexf"}
@@ -109,7 +140,7 @@ AnnexFSpec       == c[1] = "annexf" => LET x == AnnexF[c[2]] IN
 
 Out(rec) == CSVWrite("%1$s", <<ToJson(rec)>>, IOEnv.OUT_FILE)
 Emit ==
-    CASE c[1] \in {"root", "cls"} -> TRUE
+    CASE c[1] \in {"root", "cls", "vals"} -> TRUE
       [] c[1] = "wf" ->
             LET b == Broken(Cls) IN IF b = {} THEN TRUE ELSE Out([k |-> "wf", cls |-> Cls, broken |-> SetToSeq(b)])
       [] c[1] = "grid" ->
